@@ -31,7 +31,7 @@ sh("git -C /repo archive HEAD | tar -x -C %s" % work)
 rc, out = sh("git apply --check %s && git apply %s" % (patch, patch) if False else "patch -p1 --no-backup-if-mismatch < %s" % patch, cwd=work)
 if rc != 0: print("PATCH DOES NOT APPLY:\n" + out[-800:]); sys.exit(1)
 report["ran"].append("patch -p1 < patch.diff on a fresh export of /repo HEAD: applies")
-demo_path = meta["demo_path"]
+demo_path = meta["demo_path"].split()[0]
 demo_cmd = meta["demo_cmd"]
 demo_cmd = demo_cmd[demo_cmd.index("cargo test"):].split("&&")[0].strip()   # keep only the cargo invocation
 os.makedirs(os.path.dirname(os.path.join(work, demo_path)), exist_ok=True)
@@ -61,12 +61,18 @@ shutil.copy(os.path.join(ROOT, "known_findings.jsonl"), outroot)
 if os.path.isdir(os.path.join(ROOT, "regress")): shutil.copytree(os.path.join(ROOT, "regress"), os.path.join(outroot, "regress"))
 results = {}
 for p in props:
-    e2 = dict(env, VERIF_REPO_OVERRIDE=work, VERIF_TARGET_DIR="/tmp/vseed/target", VERIF_OUT_ROOT=outroot)
+    e2 = dict(env, VERIF_REPO_OVERRIDE=work, VERIF_TARGET_DIR="/tmp/vseed/target", VERIF_OUT_ROOT=outroot, VERIF_SRC_ROOT=outroot)
     t0 = time.time()
     r = subprocess.run([os.path.join(ROOT, "check"), p, "quick"], capture_output=True, text=True, env=e2, timeout=7200)
     viol = [l for l in r.stdout.splitlines() if l.startswith("VIOLATION")]
     detail = [l for l in r.stdout.splitlines() if l.startswith("  [")][:1]
     results[p] = {"exit": r.returncode, "violation": bool(viol), "detail": detail[0][:400] if detail else "", "wall_s": round(time.time() - t0)}
+    # promote the (shrunk) failing case to a plain regression case that every later run replays first
+    if viol:
+        rp = viol[0].split("replay=")[1].strip()
+        if os.path.exists(rp):
+            os.makedirs(os.path.join(ROOT, "regress", p), exist_ok=True)
+            shutil.copy(rp, os.path.join(ROOT, "regress", p, "seed-%s.json" % sid))
     report["ran"].append("./check %s quick against the changed tree -> exit %d%s" % (p, r.returncode, (": " + detail[0][:300]) if detail else ""))
     if r.returncode == 2: report["ran"].append("   stderr: " + r.stderr[-400:])
 caught = [p for p, v in results.items() if v["violation"]]
